@@ -6,14 +6,16 @@ Exhaustive core: every column of 1..4 subsets over {missing, 0..2^w-2} for width
 (ii) written by the reference with every legal difference width (minimal .. minimal+3, 63)
 -> pybufrkit's decoder.  Random: widths up to 64 bits, up to 40 subsets, strings, and full
 templates stored both ways."""
+import hashlib
 import itertools
+from fractions import Fraction
 
 from vlib import runner, sut, std, encutil, fuzz
 from vlib.compare import first_value_diff
 from vlib.runner import Outcome, Report, Reject
 from gen import messages as gmsg, pool as gpool
 from gen.values import GenSource
-from refbufr import frame, codec, tree as rtree, IllFormed, Unsupported
+from refbufr import frame, codec, tree as rtree, message as rmessage, IllFormed, Unsupported
 from refbufr.walker import all_ones
 from checks import c02
 
@@ -275,8 +277,26 @@ def check_pair(pair):
     unpad = int(comp.key()[:2], 16) % 2 == 1
     if unpad:
         out.classes.append('strings_given_unpadded')
+    # on every third case the numbers are handed over the way a user has them: off the element's grid (within 0.45 of a
+    # unit of the last scaled digit, so that each still stands for the same grid point)
+    off_grid = int(comp.key()[2:4], 16) % 3 == 0
     for name, case in (('compressed', comp), ('uncompressed', unc)):
         flat = encutil.flat_json_of_case(case, unpad=unpad)
+        if off_grid:
+            rows = encutil.flat_values(case, unpad)
+            touched = 0
+            for i in range(case.nsub):
+                for k, f in enumerate(case.decoded.fields_of(i)):
+                    if f.kind == 'num' and f.role == 'data' and f.scale != 0 and f.nbits <= 40 and rows[i][k] is not None:
+                        h = int(hashlib.sha1(('%s %d %d' % (comp.key(), i, k)).encode()).hexdigest()[:4], 16)
+                        delta = [Fraction(45, 100), Fraction(-45, 100), Fraction(3, 10), Fraction(-3, 10), Fraction(12, 100),
+                                 Fraction(-12, 100), Fraction(0)][h % 7]
+                        rows[i][k] = float((Fraction(case.decoded.raw(i, k) + f.ref) + delta) / Fraction(10) ** f.scale)
+                        touched += 1
+            if touched:
+                if name == 'compressed':
+                    out.classes.append('numbers_given_off_grid')
+                flat = rmessage.flat_json(case.meta, case.ids, rows)
         oe = sut.call(encoder().process, flat)
         if not oe.ok:
             return out.fail('encoder raised %s@%s (%s)' % (oe.exc_type, oe.frame, name), error=oe.msg)
